@@ -39,6 +39,13 @@ def run(ck):
     # because write() clears all three flags (0x70) before it loads the payload; a full TX FIFO is reported, nothing is loaded (R02.11 =
     # C01's R01.4, re-run here)
     n11 = link.write_cmd(radio, agg, rule="R02.11")
+    # "within the time bounded by the retry configuration" / "a failed payload never leaks into later calls": the retry configuration the
+    # radio uses is what the setters programmed and what `with` restores from the cached copy, and no setter clears MAX_RT behind send()'s
+    # back (C03's R03.3 / R03.8 obligations, re-run here)
+    from . import c03
+    c03.run_setters(radio, agg, contract.SETTERS)
+    from . import c08
+    c08.events_kept(radio, agg)
     agg.flush()
     ck.floor("R02.11", "write() scenarios", n11, 8)
     ck.floor("R02.4", "send() prologue scenarios", n[0], 256)
